@@ -7,7 +7,7 @@ import FeatherModel.Model.Diff
 # Driver of C05 (version graph)
 Request: `<op> <base> (<file>…) (<query>…) [(<label>…)]`
   file    := (<name> <rank> <content>)        files are given in the listing order `read_dir` produced for the harness
-  content := (tiny <mappings>) | (diff <diff>) | (raw x<bytes>)
+  content := (tiny <mappings>) | (tinyw <mappings>) | (diff <diff>) | (raw x<bytes>)
   label   := (<node name> <mappings>)
 Contents are passed as the S-expressions of `mapcodec` / `diffcodec` (text parsing is C03 / C04): the content pipeline is
 `readRoot = contract_inner_class_names("named")`, `apply = MappingsDiff::apply_to(_, "named")`,
@@ -79,6 +79,10 @@ def content (tbl : List FileContent) : Content Mappings DiffModel.Diff where
 
 def contentFrom : Sexp → Option FileContent
   | list [atom "tiny", m] => do
+    let m ← mappingsFrom m
+    if m.ns.length = 2 then pure (.tiny m) else none
+  -- the same mapping set, the file written by the writer of /repo instead of the harness (the request ships the set itself)
+  | list [atom "tinyw", m] => do
     let m ← mappingsFrom m
     if m.ns.length = 2 then pure (.tiny m) else none
   | list [atom "diff", d] => do let d ← DiffCodec.diffFrom d; pure (.diff d)
@@ -249,7 +253,11 @@ def oracleErrors (c : Content Mappings DiffModel.Diff) (req : Req) : Ans :=
           if !okNodes then fail "nodes" else if okReach then pass else fail "reachability"
     | _ => ood
 
-/-- `Thm.C05.apply_is_fold`: on the model side the answer set is the set of folds by construction -/
+/-- `Thm.C05.apply_is_fold`: on the model side the answer set is the set of folds by construction. The harness side
+computes the expected folds from the request alone (contracted root content, specification of diff application over the
+diff contents of a shortest path of the file-name graph, specification of the extension) and compares `apply_diffs` with
+them; its domain "the property says the directory resolves" is decided from the request and is compared here with the
+model's `resolve`. -/
 def oracleFold (c : Content Mappings DiffModel.Diff) (req : Req) : Ans :=
   match resolve c req.dir with
   | none => ood
